@@ -529,6 +529,18 @@ def idn_domains(tier, rng, mdl):
                 break
         if labs:
             out.append((".".join(labs).encode("utf-8") + b".com", b".".join(to_alabel(l) for l in labs) + b".com"))
+    # single labels that are long in UTF-8 (up to 63 characters of 2, 3 and 4 octets: 126 ... 252 octets) while the A-label fits into 63
+    for ch in ("\u00e9", "\u0436", "\u4e2d", "\uac00", "\U00020000", "\U00020bb7", "\U0001f600"):
+        for n in (40, 47, 48, 49, 52, 56, 59, 60, 63):
+            for lab in (ch * n, ch * (n - 1) + "a", "a" + ch * (n - 1)):
+                try:
+                    a = to_alabel(lab)
+                except Exception:
+                    continue
+                if len(a) <= 63:
+                    for t in (b".com", b".org"):
+                        out.append((lab.encode("utf-8") + t, a + t))
+                        out.append((b"www." + lab.encode("utf-8") + t, b"www." + a + t))
     return out
 
 
